@@ -274,7 +274,7 @@ func (e *Engine) Abort(txn *Transaction) {
 	}
 
 	// check transaction
-	if e.txn != txn {
+	if txn == nil || e.txn != txn {
 		return
 	}
 
